@@ -7,7 +7,7 @@
    This holds in particular in the stale-bookkeeping situations of the known findings F10/F10b-d. *)
 Require Import WD.Base.Prelude WD.Base.BStr WD.Model.SubEvents WD.Model.Emitter WD.Model.Fs WD.Model.Reader
                WD.Model.DelayQueue WD.Model.Grouping WD.Model.Pipeline WD.Model.PathTypes.
-Require Import WD.Proofs.NoCrashProofs WD.Proofs.PathProofs WD.Proofs.CoverProofs.
+Require Import WD.Proofs.ReaderFixProofs WD.Proofs.NoCrashProofs WD.Proofs.PathProofs WD.Proofs.CoverProofs.
 Local Open Scope N_scope.
 
 (* ------------------------------------------------------------------ find *)
@@ -232,7 +232,7 @@ Section ReaderRoot.
 
   Lemma add_watch_rr r k p r' k' wd : RR k r -> add_watch C r k t p = Some (r', k', wd) -> RR k' r'.
   Proof.
-    intros (K & Hk & [A B D E]) H. unfold add_watch in H.
+    intros (K & Hk & [A B D E0]) H. unfold add_watch in H.
     destruct (mem_nat (calls r) (c_faults C)); [discriminate|].
     destruct (kadd_watch k t p (c_mask C)) as [[k1 w1]|] eqn:E; [|discriminate]. inversion H; subst; clear H.
     destruct (root_watch_kadd root i w0 w k p (c_mask C) k' wd W Hroot (proj1 K) (proj2 K) Hk E) as [Hk' Hwd].
@@ -242,7 +242,7 @@ Section ReaderRoot.
       + rewrite wset_eq in Hq. inversion Hq; subst. now apply Hwd.
       + rewrite wset_neq in Hq by exact Hn. now apply B.
     - exact D.
-    - exact E.
+    - exact E0.
   Qed.
 
   Lemma sim_dirs_rr rt ds : forall r k acc r' k' acc',
@@ -327,7 +327,7 @@ Section ReaderRoot.
     destruct H as (K & Hk & [A B D E]).
     assert (H0 : RR k {| wfp := wfp r; pfw := pfw r; mvf := mvf r; calls := calls r; pend := None |}).
     { split; [exact K|]. split; [exact Hk|]. constructor; simpl; auto. intros ? ? Hx. discriminate Hx. }
-    destruct (is_moved_to (k_mask e) && N.eqb (k_cookie e) c); [inversion Hs; subst; exact H0|].
+    destruct (is_moved_to (k_mask e) && N.eqb (k_cookie e) c && amem N.eqb (k_wd e) (pfw r)); [inversion Hs; subst; exact H0|].
     eapply forget_tree_rr; [| |exact H0|exact Hs].
     - eapply pi_pend; eauto.
     - eapply E; eauto.
@@ -385,7 +385,7 @@ Section ReaderRoot.
         assert (Hmwd : mwd <> w0).
         { intros ->. apply B in Emw. eapply D; eauto. }
         assert (Hd' : RD {| wfp := aset beqb src_path mwd (aremove beqb msrc (wfp r));
-                            pfw := aset N.eqb mwd src_path (pfw r); mvf := mvf r; calls := calls r |}).
+                            pfw := aset N.eqb mwd src_path (pfw r); mvf := mvf r; calls := calls r; pend := pend r |}).
         { constructor; simpl.
           - rewrite pset_neq; auto.
           - intros q Hq. destruct (bytes_eq_dec q src_path) as [->|Hn].
@@ -470,13 +470,15 @@ Section BatchRoot.
   (* what "the root's descriptor maps to the root" buys: a record the kernel delivers on that descriptor about a
      named entry (not a rename half, not IN_IGNORED, not a new sub-directory) is translated under root/<name> *)
   Lemma root_probe r k acc m c n ns :
+    pend r = None ->
     alookup N.eqb w0 (pfw r) = Some root ->
     is_moved_from m = false -> is_moved_to m = false -> Emitter.is_ignored m = false ->
     is_directory m && is_create m = false ->
     read_one C (w_fs w) (r, k, acc) {| k_wd := w0; k_mask := m; k_cookie := c; k_name := n :: ns |} =
     Done (r, k, acc ++ [{| r_wd := w0; r_mask := m; r_cookie := c; r_name := n :: ns; r_path := join root (n :: ns) |}]).
   Proof.
-    intros Hp H1 H2 H3 H4. unfold read_one. cbn [k_wd k_mask k_cookie k_name]. rewrite Hp, H1, H2, H3.
+    intros Hpd Hp H1 H2 H3 H4. rewrite ReaderFixProofs.read_one_body_eq by exact Hpd.
+    unfold read_one_body. cbn [k_wd k_mask k_cookie k_name]. rewrite Hp, H1, H2, H3.
     rewrite <- andb_assoc, H4, andb_false_r. reflexivity.
   Qed.
 End BatchRoot.
@@ -490,6 +492,7 @@ Section PipeRoot.
   Hypothesis Hsep : last_is_sep root = false.
   Hypothesis Hfix_ign : c_fix_ignored C = true.
   Hypothesis Hfix_sim : c_fix_simulate C = true.
+  Hypothesis Hfix_mo : c_fix_moveout C = true.
 
   Definition op_ok (o : op) : Prop := op_np o /\ op_names_ok o /\ keeps_root root o.
 
@@ -505,7 +508,7 @@ Section PipeRoot.
   Proof.
     intros [H1 H2 H3 H4 H5] Ha H.
     assert (H1' : PI s').
-    { destruct (pstep_safe P Hfix_ign Hfix_sim s a H1) as [s2 [o2 [E HP]]]. rewrite H in E. now inversion E; subst. }
+    { destruct (pstep_safe P Hfix_ign Hfix_sim Hfix_mo s a H1) as [s2 [o2 [E HP]]]. rewrite H in E. now inversion E; subst. }
     assert (H2' : PInv P s').
     { eapply pstep_inv; [exact Hne | exact Hsep | exact H2 | | exact H]. intros o Ho. apply Ha in Ho. apply Ho. }
     constructor; [exact H1' | exact H2' | | |]; destruct a as [o|n| |d]; cbn [pstep] in H.
@@ -547,9 +550,9 @@ Section PipeRoot.
       destruct (read_batch C (w_fs (p_world s)) (p_r s, k0, []) (firstn n (k_queue (p_k s)))) as [[[r' k'] evs]|] eqn:E;
         [|discriminate].
       assert (HR : RR C i w0 k' r').
-      { eapply (read_batch_rr C Hne Hsep Hfix_ign Hfix_sim i w0 (p_world s) H3); [| exact H4 | | | | | | exact E].
+      { eapply (read_batch_rr C Hne Hsep Hfix_ign Hfix_sim Hfix_mo i w0 (p_world s) H3); [| exact H4 | | | | | | exact E].
         - apply H2.
-        - unfold PI in H1. destruct H1 as [L Q0 NI ND BW BQ]. simpl in *. constructor; simpl; rewrite ?firstn_skipn; auto.
+        - unfold PI in H1. destruct H1 as [L NI ND BW BQ]. simpl in *. constructor; simpl; rewrite ?firstn_skipn; auto.
         - apply H2.
         - constructor.
         - apply Forall_firstn'. apply H2.
@@ -586,6 +589,7 @@ Section PipeRoot.
       - constructor; simpl.
         + reflexivity.
         + intros p Hq. destruct (beqb p root) eqn:Eb; [now apply beqb_eq in Eb | discriminate].
+        + intros c p Hq. discriminate.
         + intros c p Hq. discriminate. }
     destruct (c_recursive C); [|inversion H; subst; exact H1].
     clear Ea. revert r1 k1 H1 H. generalize (walk_dirs (w_fs w) root). intros ps.
